@@ -207,6 +207,7 @@ func c03StartWireOnce(l *c03Lists, withDNSCrypt bool) (w *c03Wire, err error) {
 			UpstreamMode:      UpstreamModeLoadBalance,
 			EDNSClientSubnet:  &EDNSClientSubnet{Enabled: false},
 			ClientsContainer:  EmptyClientsContainer{},
+			HandleDDR:         l.HandleDDR,
 			AllowedClients:    append([]string{}, l.Allow...),
 			DisallowedClients: append([]string{}, l.Deny...),
 			BlockedHosts:      append([]string{}, l.Hosts...),
@@ -373,6 +374,16 @@ func c03GenWireLists(rng *rand.Rand) *c03Lists {
 		for len(l.Hosts) < n {
 			d := c03Domains[rng.Intn(len(c03Domains))]
 			var p string
+			if rng.Intn(5) == 0 {
+				// A name the pipeline treats specially, as an entry.
+				p = "||" + c03Special[rng.Intn(len(c03Special))] + "^"
+				if !seen[p] {
+					seen[p] = true
+					l.Hosts = append(l.Hosts, p)
+				}
+
+				continue
+			}
 			switch rng.Intn(8) {
 			case 0, 1:
 				p = d
@@ -633,6 +644,7 @@ func TestVerifC03Sockets(t *testing.T) {
 		min   int
 	}{{"udp:refused", 20}, {"tcp:refused", 10}, {"tls:refused", 10}, {"udp:admitted", 20}, {"tcp:admitted", 10}, {"tls:admitted", 10},
 		{"dnscrypt-udp:refused", 5}, {"dnscrypt-tcp:refused", 10}, {"dnscrypt-udp:admitted", 5}, {"dnscrypt-tcp:admitted", 5},
+		{"special_name:refused", 40}, {"ddr_name:refused:handle_ddr=true", 5},
 		{"refused_by_name", 10}, {"refused_by_client", 30}, {"tls_admitted_by_clientid_only", 2}} {
 		if n := rep.ClassCount(need.class); n < need.min {
 			rep.Inconcl(fmt.Sprintf("too few cases of class %s: %d", need.class, n))
@@ -642,6 +654,7 @@ func TestVerifC03Sockets(t *testing.T) {
 
 func c03RunWireConf(rep *verifkit.Report, rng *rand.Rand, idx, perConf int) {
 	l := c03GenWireLists(rng)
+	l.HandleDDR = rng.Intn(4) != 0
 	allow, ok1 := c03ParseItems(l.Allow)
 	deny, ok2 := c03ParseItems(l.Deny)
 	if !ok1 || !ok2 {
@@ -723,6 +736,17 @@ func c03RunWireConf(rep *verifkit.Report, rng *rand.Rand, idx, perConf int) {
 		if rng.Intn(4) == 0 {
 			c.Name = c03MixCase(rng, c.Name)
 		}
+		special := false
+		if rng.Intn(5) == 0 {
+			// A name the pipeline treats specially, asked as it is.
+			special = true
+			c.Name = c03Special[rng.Intn(len(c03Special))] + "."
+			if rng.Intn(12) == 0 {
+				c.Name = "."
+			}
+			c.qtype = c03SpecialQTypes[rng.Intn(len(c03SpecialQTypes))]
+			c.QType = dns.TypeToString[c.qtype]
+		}
 
 		src := netip.MustParseAddr(c.Src)
 		cv := c03DecideClient(allow, deny, src, c.ID)
@@ -730,7 +754,7 @@ func c03RunWireConf(rep *verifkit.Report, rng *rand.Rand, idx, perConf int) {
 		specified := cv.Specified || nameBlocked
 		refused := nameBlocked || (cv.Specified && cv.Excluded)
 
-		o := c03Send(w, c, idx*1000+qi+1, specified && !refused)
+		o := c03Send(w, c, idx*1000+qi+1, specified && !refused && !special)
 		if (c.Transport == "udp" || c.Transport == "dnscrypt-udp") && specified && !refused && !o.GotReply &&
 			(strings.HasPrefix(o.Err, "read:") || strings.HasPrefix(o.Err, "exchange:")) {
 			// One retry under a fresh name: a datagram lost on loopback must
@@ -767,6 +791,12 @@ func c03RunWireConf(rep *verifkit.Report, rng *rand.Rand, idx, perConf int) {
 		}
 		if refused {
 			rep.Class(c.Transport + ":refused")
+			if special {
+				rep.Class("special_name:refused")
+				if strings.EqualFold(c.Name, "_dns.resolver.arpa.") {
+					rep.Class(fmt.Sprintf("ddr_name:refused:handle_ddr=%v", l.HandleDDR))
+				}
+			}
 			if nameBlocked {
 				rep.Class("refused_by_name")
 			} else {
@@ -805,6 +835,15 @@ func c03RunWireConf(rep *verifkit.Report, rng *rand.Rand, idx, perConf int) {
 			} else {
 				rep.Event("refused_left_no_trace")
 			}
+
+			continue
+		}
+		if special {
+			// How an admitted request for such a name is answered (locally,
+			// NXDOMAIN, by private resolvers, ...) belongs to other
+			// properties; nothing is asserted.
+			rep.Class("special_name:admitted_not_asserted")
+			rep.Unspec("admitted request for a name the pipeline answers itself (DDR, canary, health check, private PTR, local domain)")
 
 			continue
 		}
